@@ -1,6 +1,7 @@
 package sym
 
 import (
+	"fmt"
 	"math/big"
 
 	"verif/engine/smt"
@@ -138,6 +139,38 @@ func registerTime(p *Program) {
 		t := x.timeOf(c.Args[0])
 		y, _, _ := x.civilFromDays(x.B.Div(t.Sec, x.B.Int(86400)))
 		return IntV{y}
+	}
+	// Date/Month/Day: month and day are named with their ranges (facts of the calendar
+	// algorithm), so that formatting them needs no case split
+	civil := func(x *Exec, c *CallCtx) (y, m, d *smt.Term) {
+		t := x.timeOf(c.Args[0])
+		yy, mm, dd := x.civilFromDays(x.B.Div(t.Sec, x.B.Int(86400)))
+		x.civilN++
+		m = x.B.Var(fmt.Sprintf("civil_month_%d", x.civilN), smt.SInt)
+		d = x.B.Var(fmt.Sprintf("civil_day_%d", x.civilN), smt.SInt)
+		x.Assume(x.B.And(x.B.Eq(m, mm), x.B.Eq(d, dd)), "calendar month and day")
+		x.setBounds(m, 1, 12, "calendar month")
+		x.setBounds(d, 1, 31, "calendar day")
+		if t.Sec.Lo != nil && t.Sec.Hi != nil && t.Sec.Lo.Cmp(bigInt(minTimeSec)) >= 0 && t.Sec.Hi.Cmp(bigInt(maxTimeSec)) <= 0 {
+			// instants within the protobuf timestamp range lie in the years 1..9999
+			y = x.B.Var(fmt.Sprintf("civil_year_%d", x.civilN), smt.SInt)
+			x.Assume(x.B.Eq(y, yy), "calendar year")
+			x.setBounds(y, 1, 9999, "calendar year of an instant in the timestamp range")
+			return y, m, d
+		}
+		return yy, m, d
+	}
+	p.Intr[T+"Date"] = func(x *Exec, c *CallCtx) Value {
+		y, m, d := civil(x, c)
+		return TupleV{IntV{y}, IntV{m}, IntV{d}}
+	}
+	p.Intr[T+"Month"] = func(x *Exec, c *CallCtx) Value {
+		_, m, _ := civil(x, c)
+		return IntV{m}
+	}
+	p.Intr[T+"Day"] = func(x *Exec, c *CallCtx) Value {
+		_, _, d := civil(x, c)
+		return IntV{d}
 	}
 	p.Intr[T+"String"] = func(x *Exec, c *CallCtx) Value {
 		t := x.timeOf(c.Args[0])
